@@ -54,9 +54,29 @@ class Scratch:
         self.src = os.path.join(self.dir, 'src')
         os.makedirs(self.src)
         self.hashes = {}
+        import threading
+        self.lock = threading.Lock()
         for f in LIB_FILES:
             shutil.copy(os.path.join(REPO, f), os.path.join(self.src, f))
             self.hashes[f] = hashlib.sha256(open(os.path.join(self.src, f), 'rb').read()).hexdigest()[:16]
+
+    def stubbed(self, lib, names):
+        """Copy of <lib> in which the DEFINITION of each static function in names is renamed to <name>__real and
+        replaced by a declaration, so that the harness can bind calls to a contract stub (bodies are untouched)."""
+        out = '%s.stub.%s.c' % (lib[:-2], '+'.join(names))
+        path = os.path.join(self.src, out)
+        with self.lock:
+            if not os.path.exists(path):
+                txt = open(os.path.join(self.src, lib)).read()
+                for n in names:
+                    rx = re.compile(r'^(static[^;{}()]*?\b)' + re.escape(n) + r'(\s*\(([^;{}]*)\)\s*)\{', re.M)
+                    m = rx.search(txt)
+                    if not m:
+                        raise RuntimeError('cannot find the definition of %s in %s' % (n, lib))
+                    decl = m.group(1) + n + m.group(2).rstrip() + ';\n'
+                    txt = txt[:m.start()] + decl + m.group(1) + n + '__real' + m.group(2) + '{' + txt[m.end():]
+                open(path, 'w').write(txt)
+        return out
 
     def close(self):
         if not self.keep:
@@ -118,6 +138,7 @@ def write_replay(path, q, fields, prop):
         f.write('#vf-replay query=%s harness=%s\n' % (q['id'], q['src']))
         f.write('#defs %s\n' % ' '.join(q.get('defs', [])))
         f.write('#link %s\n' % ' '.join(q.get('link', [])))
+        f.write('#stub %s %s\n' % (q.get('stub_lib', 'cJSON.c'), ' '.join(q.get('stub', []))))
         f.write('#property %s\n' % json.dumps(prop))
         for k, v in fields.items():
             f.write('%s %s\n' % (k, v.hex()))
@@ -148,8 +169,21 @@ def native_run(exe, replay, timeout=20):
     return 'fail', (err[-1500:] or out[-500:])
 
 
+def prepare(sc, q):
+    if q.get('stub') and not q.get('_prepared'):
+        lib = q.get('stub_lib', 'cJSON.c')
+        out = sc.stubbed(lib, q['stub'])
+        q['defs'] = list(q.get('defs', [])) + ['-DVF_LIB="%s"' % out] + ['-DVF_STUB_%s' % n for n in q['stub']]
+        q['_prepared'] = True
+
+
 def run_query(sc, q, args):
     """Returns a result dict for one query."""
+    try:
+        prepare(sc, q)
+    except RuntimeError as e:
+        return {'id': q['id'], 'src': q['src'], 'defs': q.get('defs', []), 'unwind': q.get('unwind'), 'unwindset': q.get('unwindset', []), 'status': 'BUILD_ERROR',
+                'obligations': 0, 'failed': [], 'witness_ok': 0, 'witness_missing': [], 'solver_s': 0.0, 'wall_s': 0.0, 'violations': [], 'notes': [str(e)], 'sample': None}
     tag = re.sub(r'[^A-Za-z0-9_.-]', '_', q['id'])
     res = {'id': q['id'], 'src': q['src'], 'defs': q.get('defs', []), 'unwind': q.get('unwind'), 'unwindset': q.get('unwindset', []),
            'status': None, 'obligations': 0, 'failed': [], 'witness_ok': 0, 'witness_missing': [], 'solver_s': 0.0, 'wall_s': 0.0,
@@ -409,9 +443,14 @@ def cmd_replay(args):
             hdr['link'] = l.split()[1:]
         elif l.startswith('#property'):
             hdr['property'] = l[len('#property '):].strip()
-    q = {'id': hdr['query'], 'src': hdr['harness'], 'defs': hdr.get('defs', []), 'link': hdr.get('link', [])}
+        elif l.startswith('#stub'):
+            hdr['stub'] = l.split()[1:]
+    q = {'id': hdr['query'], 'src': hdr['harness'], 'defs': [d for d in hdr.get('defs', []) if not d.startswith('-DVF_LIB=') and not d.startswith('-DVF_STUB_')], 'link': hdr.get('link', [])}
+    if len(hdr.get('stub', [])) > 1:
+        q['stub_lib'] = hdr['stub'][0]; q['stub'] = hdr['stub'][1:]
     sc = Scratch()
     try:
+        prepare(sc, q)
         exe, err = native_build(sc, q, 'replay')
         if exe is None:
             print('native build failed:\n' + err); return 2
